@@ -29,6 +29,9 @@ structure Loop (α : Type) where
   homeline : Option Nat
   hometok : List (Tok α)
   var : String := ""
+  /-- FOR: the cell of the loop variable the statement designated (`none` = scalar cell, `some k` = array cell `k`);
+  kept in the record (af19d591) because `findvar` re-points the variable's own pointer at every reference -/
+  cell : Option Nat := none
   max : α
   step : α
 
@@ -90,6 +93,16 @@ def Var.setNum (v : Var α) (x : α) : Var α := match v.ptr with
 def Var.setStr (v : Var α) (x : String) : Var α := match v.ptr with
   | none => { v with sv := x }
   | some k => { v with sarr := v.sarr.setIfInBounds k x }
+
+/-- store through an address taken *before* the right-hand side was evaluated (`*v->val = realexpr(LINK)` as compiled:
+the pointer is loaded first); `val`/`sval` itself stays where the evaluation left it -/
+def Var.setNumAt (v : Var α) (target : Option Nat) (x : α) : Var α :=
+  { ({ v with ptr := target }.setNum x) with ptr := v.ptr }
+def Var.setStrAt (v : Var α) (target : Option Nat) (x : String) : Var α :=
+  { ({ v with ptr := target }.setStr x) with ptr := v.ptr }
+
+/-- the content of a designated cell, wherever `val` currently points -/
+def Var.numAt (v : Var α) (cell : Option Nat) : α := ({ v with ptr := cell } : Var α).numVal
 
 /-- `clearvar` -/
 def Var.clear (_v : Var α) : Var α := newVar
